@@ -284,6 +284,11 @@ func nsxJudgeConverge(c *Ctx, cs *NsxCase, node *nsxdev.Node, o PanOpts, prop, p
 			return nil
 		}
 		// C04
+		if firstReject != nil && pre != "" {
+			// C10: the resumed approve must get through.
+			return fail("command-rejected|"+nsxRejectKind(firstReject.Reject)+"|"+nsxReqKind(*firstReject),
+				fmt.Sprintf("request %d %s %s: %s", firstReject.K, firstReject.Method, firstReject.Path, firstReject.Reject))
+		}
 		if firstReject != nil {
 			c.Count("skipped_rejected_script", 1)
 			if os.Getenv("VERIF_DEBUG") != "" {
